@@ -23,10 +23,15 @@ RULE = ("one case = one collider/free function/RigidBody with concrete pose and 
 EXPLANATION = ("aabb_encloses/aabb_tight are proved for the Lean model at exact real arithmetic for every orthonormal "
                "pose; this run compares that very model (at Rat on lattice poses, at Float on random poses) with the "
                "implementation and runs an independent sampling oracle on the real code")
-PARTIAL = {}
+PARTIAL = {
+    "ellipsoidAabb_asIs_axis_aligned_partial":
+        "the code as it is (ellipsoidAabb_asIs) is proved correct only for signed-permutation poses; for rotated poses "
+        "the full statement is false (ellipsoidAabb_asIs_not_enclosing); the full theorem is proved for the repaired "
+        "ellipsoidAabb_fixed only (known finding F-ellipsoid-aabb)",
+    "collider_aabb_spec_asIs":
+        "as-coded Collider.aabb: every collider except those containing an ellipsoid with a non-axis-aligned pose",
+}
 ASSUMPTIONS = [
-    "RigidBody.aabb(): the root box of the AabbTree built by insert_aabbs(…, 'sort') equals the merge of all leaf "
-    "boxes (C05 history_leaves: the tree stays tight); the model takes that merge directly",
     "float rounding is not modelled: the theorems are at exact real arithmetic; the 1e-9*L tolerance of the property is "
     "the allowance of the correspondence and of the oracle",
 ]
@@ -37,12 +42,11 @@ MANIFEST = dict(
     text=("Lean theorems <shape>_aabb_encloses / <shape>_aabb_tight for sphere, box, vertex hull, mesh, margin, cylinder, "
           "capsule, disk, cone, ellipse and the repaired ellipsoid for every orthonormal pose (sqrt arguments proved "
           "non-negative), collider_aabb_spec over the collider sum type, intersect_imp_aabbOverlap; counterexample "
-          "theorems for the two defects of the unchanged code (ellipsoid_aabb under rotation, RigidBody.aabb frame); "
+          "theorems for ellipsoid_aabb under rotation (known finding) and for RigidBody.aabb before its repair; "
           "the model of containment.py / Collider.aabb / Margin.aabb / RigidBody.aabb is compared with the "
           "implementation on lattice (exact Rat) and random poses; sampling oracle on the real code."),
     note=("trusted: Lean kernel + Mathlib, axioms propext/Classical.choice/Quot.sound; exact-real semantics (float "
-          "rounding not modelled); correspondence harness (sampling); root box of a tight tree = merge of leaves "
-          "(C05) taken as the model of RigidBody.aabb."),
+          "rounding not modelled); correspondence harness (sampling)."),
     technique="Lean 4 proof on hand-written model + correspondence (Rat-exact on rational rotations, Float on random poses)",
     design="§7 C04")
 
@@ -505,6 +509,23 @@ def agree(model, impl, tol):
     return all(abs(a - b) <= tol for a, b in zip(model[2], impl[1]))
 
 
+def is_exact(sp):
+    """all numbers are dyadic rationals (then every rotation is a signed permutation and every float operation of
+    the implementation — products, sums, sqrt of 0/1/r*r, r*r/r — is exact): compare with tolerance 0"""
+    def walk(x):
+        if isinstance(x, dict):
+            return all(walk(v) for k, v in x.items() if k not in ("kind", "rot", "triangles", "tets"))
+        if isinstance(x, (list, tuple)):
+            return all(walk(v) for v in x)
+        if isinstance(x, Fr):
+            d = x.denominator
+            return d & (d - 1) == 0
+        if isinstance(x, int) or isinstance(x, str):
+            return True
+        return False
+    return walk(sp)
+
+
 def is_identity(sp):
     sp = innermost(sp) if sp["kind"] != "rigidbody" else sp
     return sp.get("rot") == "identity"
@@ -513,7 +534,7 @@ def is_identity(sp):
 # ------------------------------------------------------------------ correspondence
 def correspondence(ctx):
     rng = ctx.rng
-    n = ctx.budget(1400, 40000)
+    n = ctx.budget(9000, 120000)
     cases = []
     # corpus: the witnesses of the two findings and edge inputs, first
     for sp, stream in corpus():
@@ -559,6 +580,9 @@ def correspondence(ctx):
     for stream, sp, spf, mode, ids in plan:
         L = feature_scale(spf)
         tol = (1e-12 if stream == "L" else 1e-9) * L
+        if stream == "L" and is_exact(sp):
+            tol = 0.0
+            ctx.extra["exact_cases"] = ctx.extra.get("exact_cases", 0) + 1
         key = " ".join(enc_rigid(sp, mode) if sp["kind"] == "rigidbody" else enc_collider(sp, mode))
         ctx.count(stream + ":" + ("rigidbody" if sp["kind"] == "rigidbody" else innermost(sp)["kind"]),
                   key=key, nontrivial=not is_identity(sp),
@@ -627,6 +651,53 @@ def correspondence(ctx):
     ctx.extra["variant_matched"] = {k: ("asIs" if v["asis"] else ("fixed" if v["fixed"] else "undetermined")) + " " + str(v)
                                     for k, v in variant.items()}
     ctx.extra["rounding_envelope_rel"] = envelope
+    expected = {"cylinder.aabb": range(8), "capsule.aabb": range(8), "cone.aabb": range(27)}
+    unreached = {}
+    for fn, ids in expected.items():
+        seen = set(ctx.branches.get(fn, {})) | set(ctx.branches.get(fn + "/margin", {}))
+        miss = [i for i in ids if str(i) not in seen]
+        if miss:
+            unreached[fn] = miss
+    ctx.extra["unreached_branches"] = unreached
+    ctx.notes.append("observation (not flagged, below the model's reach): cylinder_aabb/disk_aabb/cone_aabb evaluate "
+                     "sqrt(1 - a*a); for a rotation by ~1e-8 rad off an axis the returned half-extent is 0 instead of "
+                     "~1e-8*radius (cancellation), i.e. off by more than 1e-9*L; the general stream keeps perturbation "
+                     "angles >= 1e-4")
+    if ctx.thorough:
+        jit_engine(ctx, [(st, sp) for st, sp in cases if st != "M"][:4000])
+
+
+def impl_run(spf):
+    """one case for the second engine (core.run_engine -> worker.py)"""
+    if spf["kind"] == "rigidbody":
+        rb = build_rigid(spf)
+        return {"cls": as_res(lambda: rb.aabb()), "free": None}
+    return {"cls": impl_class(spf), "free": impl_free(spf) if spf["kind"] != "margin" else None}
+
+
+def jit_engine(ctx, cases):
+    """thorough tier: the same cases with the JIT on (convert_box_to_vertices, transform_points, invert_transform
+    are compiled); results must agree with the interpreted engine within 1e-12*L"""
+    specs = [fl(sp) for _, sp in cases]
+    res = core.run_engine("c04", specs, jit=True)
+    if isinstance(res, dict):
+        ctx.broke("correspondence", "JIT engine", res.get("engine_error"))
+        return
+    nbad = 0
+    for spf, r in zip(specs, res):
+        ref = impl_run(spf)
+        ctx.count("jit:" + spf["kind"], key=repr(spf))
+        L = feature_scale(spf)
+        for k in ("cls", "free"):
+            a, b = ref.get(k), (r or {}).get(k)
+            if a is None and b is None:
+                continue
+            same = (a is not None and b is not None and a[0] == b[0] and
+                    (a[0] != "ok" or all(abs(x - y) <= 1e-12 * L for x, y in zip(a[1], b[1]))))
+            if not same and nbad < 5:
+                nbad += 1
+                ctx.broke("correspondence", "JIT vs interpreted " + spf["kind"], "interp=%s jit=%s" % (a, b),
+                          {"spec": spf})
 
 
 def _tally(d, ok_a, ok_f):
@@ -1011,7 +1082,7 @@ def type_name(spf):
 def search(ctx):
     rng = ctx.rng
     rng_np = np.random.default_rng(rng.randrange(2 ** 31))
-    n = ctx.budget(900, 30000) * (3 if ctx.extra.get("search_boost") else 1)
+    n = ctx.budget(6000, 150000) * (3 if ctx.extra.get("search_boost") else 1)
     held = 0
     for sp, stream in corpus():
         ctx.count("search:corpus", key=repr(fl(sp)))
@@ -1033,7 +1104,7 @@ def search(ctx):
         held += bool(run_oracle(ctx, sp, rng_np))
     # consequence for the broad phase: colliders sharing a point have overlapping boxes (closed-interval test)
     from distance3d.aabb_tree import aabb_overlap
-    pairs = ctx.budget(150, 4000)
+    pairs = ctx.budget(800, 20000)
     for _ in range(pairs):
         stream = "L" if rng.random() < 0.4 else "G"
         a = gen_collider(rng, stream)
